@@ -214,6 +214,79 @@ def c14(ctx):
                          'position / length) checked by TraceOrder against the order laws')
 
 
+def c15(ctx):
+    flat = {'Keys': '{<<97>>, <<98>>}', 'Leaves': '{VNum(<<49>>), VNum(<<50>>)}'}
+    nested = {'Keys': '{<<97>>, <<98>>}',
+              'Leaves': '{VNum(<<49>>), VArr(<<VNum(<<49>>)>>), VObj(<<Entry(<<97>>, VNum(<<49>>)), Entry(<<98>>, VNum(<<50>>))>>), '
+                        'VObj(<<Entry(<<98>>, VNum(<<50>>)), Entry(<<97>>, VNum(<<49>>))>>)}'}
+    r1 = ctx.mc(f'unordered_flat_{ctx.tier}', 'MC_Unordered', flat, {'MaxEntries': 3 if ctx.quick else 4}, ['Dump', 'Laws'], spec='USpec')
+    r2 = ctx.mc(f'unordered_nested_{ctx.tier}', 'MC_Unordered', nested, {'MaxEntries': 2 if ctx.quick else 3}, ['Dump', 'Laws'], spec='USpec')
+    ctx.replay([r1['out'], r2['out']], ['C15.'])
+    trace, s = ctx.record('record-unordered', 'uneq.ndjson', ['--n', 300 if ctx.quick else 4000])
+    ctx.validate('uneq', 'TraceUnordered', trace, 'C15.trace',
+                 'recorded unordered comparison differs from equality up to permutation of entries (MultisetEq)')
+    ctx.extra['rule'] = ('S->I: all pairs of small objects (<= 3-4 entries over 2 keys x 2 leaves; <= 2-3 entries with nested leaves), plain and '
+                         'nested under an array / object, compared with the declarative bijection-based UnorderedEq; I->S: generated values with '
+                         'deep shuffles and single mutations (leaf, key, multiplicity, array swap) decided by MultisetEq in TLC')
+
+
+def printer_model(ctx):
+    consts = {'ValueSet': 'AllValues', 'OptionSet': 'QuickOptions' if ctx.quick else 'ThoroughOptions'}
+    return ctx.mc(f'printer_{ctx.tier}', 'MC_Printer', consts, {},
+                  ['Dump', 'ParseOfPrint', 'OnlyWhitespaceDiffers', 'CompactMinimal', 'NoLimitSingleLine'], spec='PSpec')
+
+
+def printer_trace(ctx, aspect_layout, aspect_roundtrip):
+    """record random values x random option records; TLC validates layout and round trip"""
+    trace, s = ctx.record('record-print', 'print.ndjson', ['--n', 250 if ctx.quick else 3000])
+    label = 'print'
+    inst = 'TRI_print'
+    mod = f'---- MODULE {inst} ----\nEXTENDS TracePrinter\n====\n'
+    cfg = 'SPECIFICATION TrSpec\nINVARIANT Result\nCHECK_DEADLOCK FALSE\n'
+    r = vp.tlc(f'{ctx.pid}_{label}', mod, cfg, workers=1, cache=False, env={'TRACE': trace}, timeout=3000)
+    if not r['ok']:
+        raise ToolError(f'TracePrinter failed: {r["violation"]}; see {r["out"]}')
+    res = None
+    for line in vp.tlc_lines(r['out'], '"{'):
+        rec = vp.unquote_tlc(line)
+        if rec.get('k') == 'trace_result':
+            res = rec
+    if res is None:
+        raise ToolError(f'TracePrinter did not finish; see {r["out"]}')
+    lines = open(trace).read().splitlines()
+    wanted = []
+    if aspect_layout:
+        wanted += [(aspect_layout, l, 'recorded text differs from JsonPrinter!Print(value, options)') for l in res['bad']]
+    if aspect_roundtrip:
+        wanted += [(aspect_roundtrip, l, 'recorded text does not parse back to the printed value') for l in res['bad2']]
+    summ = {'label': label, 'events': res['events'], 'validated': res['events'] - len({l for _, l, _ in wanted}),
+            'rejected': len({l for _, l, _ in wanted}), 'wall_s': r['wall_s'], 'distinct': res['events'],
+            'mismatch_counts': {a: sum(1 for x in wanted if x[0] == a) for a in {w[0] for w in wanted}}}
+    ctx.traces.append(summ)
+    for a, l, what in wanted[:50]:
+        ev = json.loads(lines[l - 1])
+        ctx.mismatches.append((a, {'what': what, 'event_index': l, 'vector': {'k': 'print', 'v': ev['v'], 'o': ev['o'], 'text': ev['text']},
+                                   'observed_text': ''.join(chr(c) for c in ev['text']), 'reparsed': ev['back']}))
+    ctx.samples.extend(s.get('samples', [])[:1])
+
+
+def c13(ctx):
+    r = printer_model(ctx)
+    ctx.replay([r['out']], ['C13.'])
+    printer_trace(ctx, 'C13.trace', None)
+
+
+def c04(ctx):
+    r = printer_model(ctx)
+    ctx.replay([r['out']], ['C04.'])
+    printer_trace(ctx, None, 'C04.trace')
+
+
+def c08(ctx):
+    r = printer_model(ctx)
+    ctx.replay([r['out']], ['C08.'])
+
+
 def c20(ctx):
     r = ctx.mc('kindset', 'MC_KindSet', {}, {}, ['DumpIter', 'DumpSet', 'IterSound'], spec='KSpec', workers=4)
     ctx.replay([r['out']], ['C20.'], extra_args=['--value-kinds', '1'])
@@ -224,7 +297,8 @@ def c20(ctx):
 
 CHECKS = {
     'C01': c01, 'C02': c02, 'C03': c03, 'C05': c05, 'C07': c07, 'C12': c12,
-    'C06': c06, 'C14': c14,
+    'C04': c04, 'C08': c08, 'C13': c13,
+    'C06': c06, 'C14': c14, 'C15': c15,
     'C20': c20,
 }
 
